@@ -77,10 +77,10 @@ async def drive(peer, sess: M.Session, ops, *, world=None, check_tree=True, sett
         # a data connection that is already attached (made before an earlier, refused transfer
         # command) will be used by the server whether or not the peer planned to connect
         will_connect = opts.get("connect", "before") != "never" or (sess.dc and sess.logged and sess.listener)
+        if on_step is not None:
+            on_step(st, "before", sess)  # may swap the model's tree (per-user base directories)
         exp = sess.expect(v, arg, will_connect=will_connect, user_limit_reached=opts.get("limit_reached", False))
         st.expect = exp
-        if on_step is not None:
-            on_step(st, "before", sess)
         line = verb if arg == "" and not opts.get("trailing_space") else f"{verb} {arg}"
         stored = None
         try:
